@@ -10,7 +10,7 @@ def units(tier, seed):
         t = _mk.QUICK_TABLES
     else:
         g = [(n, m) for n in (1, 2, 3, 4) for m in range(1, 9)] + [(5, 1), (5, 2), (5, 3), (6, 2)]
-        t = [(n, m) for n in range(1, 5) for m in range(1, 5)]
+        t = [(n, m) for n in range(1, 5) for m in range(1, 5)]      # including all 65536 4x4 tables
     us = gen.kernel_units(g)
     for n, m in g:
         us.append({'name': f'lindig generator {n}x{m}', 'fn': 'unit_lindig', 'args': {'n': n, 'm': m},
